@@ -10,8 +10,7 @@ import "github.com/git-lfs/git-lfs/v3/fs"
 func VerifC09_DownloadKilled() {
 	root := verifTempDir()
 	a := &basicDownloadAdapter{&adapterBase{fs: fs.New(verifNoEnv{}, root+"/.git", root, root+"/lfs", 0644)}}
-	expected := verifNondetString("object.content")
-	verifAssume(len(expected) >= 1 && len(expected) <= 40)
+	expected := "The quick brown fox jumps over the lazy dog"
 	oid := verifHashHex([]byte(expected))
 	path := root + "/lfs/objects/final-object"
 	t := &Transfer{Name: "file.bin", Oid: oid, Size: int64(len(expected)), Path: path,
@@ -42,10 +41,12 @@ func VerifC09_DownloadKilled() {
 	} else {
 		verifCover("completed")
 	}
+	present := 0
 	if after, ok := verifFSRead(path); ok {
+		present = 1
 		verifAssert(verifHashHex([]byte(after)) == oid, "a file at the object's final location always hashes to its name")
 	}
-	verifAssert(verifFSCount(root+"/lfs/objects/") <= 2, "leftovers never appear in local object storage")
+	verifAssert(verifFSCount(root+"/lfs/objects/") == 1+present, "leftovers never appear in local object storage")
 	// restart with a well-behaved server
 	verifAnswers = []verifAnswer{good, good, good}
 	verifRequests = 0
